@@ -541,7 +541,9 @@ func storageAlphabet() []func(r *storageRun) {
 		func(r *storageRun) { r.doCommit(false, 2, 1) },
 		func(r *storageRun) { r.doCommit(true, 2, -1) },
 		func(r *storageRun) { r.doCommit(true, 2, 1) },
-		func(r *storageRun) { r.simple(8, "dropDeltas", func() { r.st.DropDeltas(); r.ov.pending = map[atree.SlabID]*sVal{} }) },
+		func(r *storageRun) {
+			r.simple(8, "dropDeltas", func() { r.st.DropDeltas(); r.ov.pending = map[atree.SlabID]*sVal{} })
+		},
 		func(r *storageRun) { r.simple(9, "dropCache", func() { r.st.DropCache() }) },
 		func(r *storageRun) { r.doPreload([]atree.SlabID{a, b, t}, 2) },
 		func(r *storageRun) {
